@@ -101,6 +101,10 @@ func simErr(name, op string) error {
 		return sys(syscall.ENOBUFS)
 	case "EINVAL":
 		return sys(syscall.EINVAL)
+	case "EINTR": // "temporary" for package net, but not a timeout
+		return sys(syscall.EINTR)
+	case "EMFILE":
+		return sys(syscall.EMFILE)
 	case "EPERM":
 		return sys(syscall.EPERM)
 	case "EACCES":
@@ -1110,7 +1114,12 @@ func (n *wnode) watchSource(ctx context.Context, emit func([]rtnetlink.Message))
 	for {
 		select {
 		case <-ctx.Done():
-			n.w.log.Add(verifsim.Event{K: "watch.exit", Node: n.id})
+			// the real watcher only notices a cancellation when its pending
+			// read is interrupted: seam "watch.stop" makes that take a while
+			f, _ := n.w.decide("watch.stop", n.id, "", "")
+			n.w.park(f)
+			x := verifsim.Event{K: "watch.exit", Node: n.id, F: faultTag(f)}
+			n.w.log.Add(x)
 			return nil
 		case err := <-n.watchE:
 			x := verifsim.Event{K: "watch.exit", Node: n.id}
